@@ -509,6 +509,12 @@ def compute_reproject_roi(
         if not roi_is_empty(roi_dst):
             center_pt = xy_(roi_center(roi_dst)[::-1])
             scale2 = get_scale_at_point(center_pt, tr.back)
+            if not all(math.isfinite(s) for s in scale2.xy):
+                # centre of roi_dst has no image in the source (e.g. the region wraps
+                # around the far side of a full-disk view): measure at the image of the
+                # centre of roi_src instead, a point of the overlap that does
+                (center_pt,) = tr([xy_(roi_center(roi_src)[::-1])])
+                scale2 = get_scale_at_point(center_pt, tr.back)
             scale = min(scale2.xy)
             read_shrink = _pick_read_scale(scale)
         else:
